@@ -515,6 +515,60 @@ func hasStructLiteralInContainer(p *idl.Program) bool {
 	return found
 }
 
+// TestCompilesNames is TestCompiles over programs whose names stress the
+// naming styles and the collision renaming (different IDL names converting to
+// one Go identifier, initialisms, Go keywords, names of generated methods).
+func TestCompilesNames(t *testing.T) {
+	rapid.Check(t, func(rt *rapid.T) {
+		opts := genOptions(rt)
+		if rapid.Bool().Draw(rt, "compat") {
+			opts = append(opts, "compatible_names")
+		}
+		mc := modelCfg()
+		mc.NameStress = true
+		mc.CompatNames = optOn(opts, "compatible_names")
+		mc.NoNamespace = false // files sharing a package by accident must not collide after name conversion
+		mc.InheritedCaseCollision = true
+		if vt.Known(prop, "inherited-function-case-collision") {
+			mc.InheritedCaseCollision = false
+			vt.Excluded("inherited-function-case-collision")
+		}
+		mc.HelperNames = true
+		if vt.Known(prop, "names-of-generated-helpers") {
+			mc.HelperNames = false
+			vt.Excluded("names-of-generated-helpers")
+		}
+		mc.Annotations = false
+		mc.NastyLits = false
+		p := idl.Gen(rt, mc)
+		if vt.Known(prop, "unused-import-typedef-const") && retypeCrossFileBaseTypedefConsts(p) > 0 {
+			vt.Excluded("unused-import-typedef-const")
+		}
+		c := genCase{Main: p.Files[0].Path, Files: p.Texts(nil), Backend: "go", Options: opts, Recurse: true}
+		if rapid.IntRange(0, 3).Draw(rt, "fastgo") == 0 {
+			c.Backend = "fastgo"
+		}
+		if rapid.Bool().Draw(rt, "prefix") {
+			c.Prefix = "vmod/gen"
+		}
+		applyKnown(p, &c)
+		vt.Eval()
+		st, err := judge(c)
+		vt.Class("names:status:" + st)
+		if st == stOK {
+			vt.Nontrivial(key(c))
+		}
+		vt.Sample(map[string]interface{}{"test": "names", "program": p.Describe(), "gen": c.genArg(), "status": st, "main": vt.Truncate(c.Files[c.Main], 300)})
+		if err != nil {
+			if os.Getenv("VERIF_SURVEY") != "" {
+				surveyNote(c, err)
+				return
+			}
+			vt.Fail(rt, prop, "compiles", c, "%v", err)
+		}
+	})
+}
+
 func hasOptFalse(opts []string, name string) bool {
 	for _, o := range opts {
 		if o == name+"=false" {
